@@ -110,7 +110,7 @@ fn main() {
     let mut out = String::new();
     for id in 0..args.n {
         let mut cr = r.fork();
-        one_case(&mut cr, id, &mut out);
+        guard(id, &mut out, |out| one_case(&mut cr, id, out));
     }
     print!("{}", out);
 }
